@@ -79,7 +79,7 @@ where
     REG_EX
         .get_or_init(|| {
             // Replace $tags, ${tag} or $<pod::key>
-            Regex::new(r"(\$([a-z][a-zA-Z0-9_]+))|(\$\{([a-z][a-zA-Z0-9_]+)\})|(\$<([^>]+)>)")
+            Regex::new(r"(\$([a-z][a-zA-Z0-9_]*))|(\$\{([a-z][a-zA-Z0-9_]*)\})|(\$<([^>]+)>)")
                 .unwrap()
         })
         .replace_all(
